@@ -295,7 +295,7 @@ def onEvent (p : Params) (s : St) (b : Book) (o : Obs) (_ : Book) : St × List V
             if n < waiting then [s!"batch {bid} NumPending={n} but {waiting} items have not even started"] else []))
   | .ret _ _ _ (.gwait bid n) =>
     let ks := lookupD [] s.batches bid
-    let bad := ks.filter (fun k => let j := b.job k; j.exited == 0 && !mayBeGone j)
+    let bad := ks.filter (fun k => let j := b.job k; j.entered > j.exited || (j.exited == 0 && !mayBeGone j))
     (s, (if bad.isEmpty then [] else [s!"batch {bid} Wait returned while items {bad} had not finished"])
         ++ (if n != 0 then [s!"batch {bid} NumPending={n} right after its Wait returned"] else []))
   | .ret _ _ _ (.gcollect bid items) =>
